@@ -95,8 +95,16 @@ func resOf(r abci.ResponseDeliverTx) TxResult {
 	return TxResult{Code: r.Code, Codespace: r.Codespace, Data: r.Data, GasWanted: r.GasWanted, GasUsed: r.GasUsed, EventsH: hex.EncodeToString(h.Sum(nil)[:8]), Log: r.Log}
 }
 
+// SameConsensus compares the consensus-relevant fields. GasUsed is compared only for transactions that got
+// past the ante handler (GasWanted > 0): for a transaction refused before the ante handler installs its own
+// gas meter, baseapp reports the consumption of the block-wide deliver context instead, which includes
+// once-per-process work of SDK BeginBlockers (x/upgrade's downgrade verification) — an SDK artefact that
+// differs between a fresh and a long-running process and says nothing about panacea-core.
 func (a TxResult) SameConsensus(b TxResult) bool {
-	return a.Code == b.Code && a.Codespace == b.Codespace && bytes.Equal(a.Data, b.Data) && a.GasWanted == b.GasWanted && a.GasUsed == b.GasUsed && a.EventsH == b.EventsH
+	if a.Code != b.Code || a.Codespace != b.Codespace || !bytes.Equal(a.Data, b.Data) || a.GasWanted != b.GasWanted || a.EventsH != b.EventsH {
+		return false
+	}
+	return a.GasWanted == 0 || a.GasUsed == b.GasUsed
 }
 
 type BlockRec struct {
@@ -109,6 +117,7 @@ type BlockRec struct {
 	FlatHash string
 	Panel    []PanelReq
 	PanelH   string
+	SmallH   string
 	Model    *Model
 }
 
@@ -123,6 +132,8 @@ type Replica struct {
 	NextCfg     *NodeCfg
 	NoInfoFile  bool
 	Dead        bool // failed to start: reported
+	Genesis     *abci.RequestInitChain // what the node was initialised with (re-sent by the handshake while nothing is committed)
+	PrunedEver  bool                   // ran at some point with a pruning configuration other than "nothing"
 }
 
 type pendingTx struct {
@@ -183,6 +194,7 @@ type Exec struct {
 	orderCtr     int
 	writerRemoved map[string]bool // owner|topic|writer removed at least once (probe)
 	maxTxID      int
+	inEpilogue   bool
 }
 
 func NewExec(s *Script, env *Env, scratch string, known *KnownFindings, tracePath string) *Exec {
@@ -318,6 +330,8 @@ func (e *Exec) Run() {
 			}
 		case "bootstrap":
 			e.bootstrap(st)
+		case "hquery":
+			e.hostileQuery(st.HQ)
 		case "upgrade":
 			e.nextPlan = &upgradetypes.Plan{Name: "v2.2.1", Height: int64(len(e.Blocks)) + 2, Info: "panasim"}
 		}
@@ -344,7 +358,7 @@ func (e *Exec) initChain() bool {
 	var genBytes []byte
 	for i, c := range cfgs {
 		n := NewNode(i, e.Env, c, e.Scratch)
-		r := &Replica{Node: n, FirstHeight: 1}
+		r := &Replica{Node: n, FirstHeight: 1, PrunedEver: c.Pruning != "nothing"}
 		e.R = append(e.R, r)
 		if err := n.Start(); err != nil {
 			e.viol("C10", "node.start_failed.genesis", "", "replica %d cannot start on an empty database: %v", i, err)
@@ -353,9 +367,9 @@ func (e *Exec) initChain() bool {
 		if i == 0 {
 			genBytes, e.Model = e.Env.BuildGenesis(n.App, &e.S.Config.Genesis)
 		}
-		_, halt := n.guard("InitChain", func() {
-			n.App.InitChain(abci.RequestInitChain{ChainId: ChainID, ConsensusParams: consensusParams(), AppStateBytes: genBytes, Time: e.Now})
-		})
+		req := abci.RequestInitChain{ChainId: ChainID, ConsensusParams: consensusParams(), AppStateBytes: genBytes, Time: e.Now}
+		r.Genesis = &req
+		_, halt := n.guard("InitChain", func() { n.App.InitChain(req) })
 		if halt != nil {
 			e.viol("C08", "genesis.init_panic", "", "InitChain of the generated genesis panicked on replica %d: %s [%s]", i, halt.Panic, halt.Stack)
 			return false
@@ -409,7 +423,7 @@ func (e *Exec) produceBlock(st *Step) {
 		return
 	}
 	r0.inBlock = true
-	if hs := CustomDumpHashes(r0.DeliverStores()); !sameHashes(preHashes, hs) {
+	if hs := CustomDumpHashes(r0.DeliverStores()); h > 1 && !sameHashes(preHashes, hs) {
 		prop := "C10"
 		if isUpgradeBlock {
 			prop = "C19"
@@ -1150,6 +1164,17 @@ func (e *Exec) judgeTx(p *pendingTx, bt *BuiltTx, pred *prediction, accepted boo
 		first = all[0]
 	}
 	ent := fmt.Sprintf("tx%d", p.ID)
+	if first != nil && pred.HasCustom {
+		k := "judged." + moduleOf(first)
+		if accepted {
+			e.Stats.Inc(k + ".accepted")
+		} else {
+			e.Stats.Inc(k + ".rejected")
+		}
+	}
+	if e.isResubmission(p) {
+		e.Stats.Inc("probe.did.resubmission_delivered")
+	}
 	if !accepted {
 		// every rejected attempt leaves the custom state exactly as it was
 		if !sameHashes(preH, postH) {
@@ -1512,6 +1537,33 @@ func (e *Exec) clientSideValidate(id int, bt *BuiltTx) {
 				}()
 				_ = m.GetSigners()
 			}()
+		}
+	}
+}
+
+// hostileQuery: C17 — no query request makes a handler panic (checked on every live replica).
+func (e *Exec) hostileQuery(q *HQuery) {
+	if q == nil || e.head() < 1 {
+		return
+	}
+	data, _ := hex.DecodeString(q.DataHex)
+	for _, r := range e.R {
+		if r.Dead || !r.Up || r.Applied < 1 {
+			continue
+		}
+		h := int64(0)
+		if q.Height < 0 && !r.PrunedEver && !r.Boot {
+			h = r.Applied + q.Height
+			if h < 1 {
+				h = 0
+			}
+		}
+		res := r.QueryRaw(q.Path, data, h)
+		e.Stats.Inc("q.hostile")
+		e.Trace.Ev("hquery replica=%d path=%s height=%d -> code=%d/%s", r.ID, q.Path, h, res.Code, res.Codespace)
+		if res.IsPanic() {
+			e.viol("C17", "panic.query", q.Path, "replica %d: query %s with request %s (height %d) was answered with a panic: %s %s", r.ID, q.Path, trunc(q.DataHex, 200), h, res.Brief(), res.PanicMsg)
+			return
 		}
 	}
 }
